@@ -3,11 +3,14 @@ package main
 import (
 	"fmt"
 	"go/ast"
+	"go/build/constraint"
 	"go/printer"
 	"go/token"
 	"go/types"
+	"io/fs"
 	"os"
 	"os/exec"
+	"path/filepath"
 	"sort"
 	"strings"
 )
@@ -21,16 +24,41 @@ func genFacts(repo string, field, scal, root *pkgSrc, out string) {
 	b.WriteString("def untouched : List (String × List String) := [\n  " + strings.Join(untouchedFacts, ",\n  ") + "]\n\n")
 
 	// C17: transitive import closure of the root package as the Go tool computes it
-	cmd := exec.Command("go", "list", "-deps", ".")
-	cmd.Dir = repo
-	cmd.Env = append(os.Environ(), "GOFLAGS=-mod=mod", "GOPROXY=off", "GOSUMDB=off", "GOTOOLCHAIN=local")
-	o, err := cmd.Output()
-	if err != nil {
-		fatal("go list -deps failed: %v", err)
+	listDeps := func(tag string) []string {
+		args := []string{"list", "-deps"}
+		if tag != "" {
+			args = append(args, "-tags", tag)
+		}
+		cmd := exec.Command("go", append(args, ".")...)
+		cmd.Dir = repo
+		cmd.Env = append(os.Environ(), "GOFLAGS=-mod=mod", "GOPROXY=off", "GOSUMDB=off", "GOTOOLCHAIN=local")
+		o, err := cmd.Output()
+		if err != nil {
+			fatal("go list -deps (tags %q) failed: %v", tag, err)
+		}
+		return strings.Fields(string(o))
 	}
-	deps := strings.Fields(string(o))
+	// build configurations: the default one plus one per custom build tag mentioned by a //go:build line of the module
+	tags := buildTags(repo)
+	count := map[string]int{}
+	for _, d := range listDeps("") {
+		count[d]++
+	}
+	for _, t := range tags {
+		for _, d := range uniqSorted(listDeps(t)) {
+			count[d]++
+		}
+	}
+	var deps []string
+	for d, c := range count {
+		if c == 1+len(tags) {
+			deps = append(deps, d)
+		}
+	}
 	sort.Strings(deps)
-	b.WriteString("/-- `go list -deps .`: every package linked into any program that imports the root package -/\n")
+	b.WriteString("/-- custom build tags mentioned by `//go:build` lines in the module (each is a build configuration) -/\n")
+	b.WriteString("def buildTags : List String := [" + quoteAll(tags) + "]\n\n")
+	b.WriteString("/-- intersection over all those build configurations of `go list -deps .`: the packages linked into *every*\nprogram that imports the root package -/\n")
 	b.WriteString("def rootDeps : List String := [" + quoteAll(deps) + "]\n\n")
 
 	// hashes obtained through the crypto registry: crypto.<ID>.New() / .Size() / .Available()
@@ -231,4 +259,55 @@ func nodeText(fset *token.FileSet, n ast.Node) string {
 	var sb strings.Builder
 	printer.Fprint(&sb, fset, n)
 	return strings.Join(strings.Fields(sb.String()), " ")
+}
+
+func uniqSorted(xs []string) []string {
+	sort.Strings(xs)
+	return uniq(xs)
+}
+
+var knownOSArch = map[string]bool{"linux": true, "darwin": true, "windows": true, "freebsd": true, "netbsd": true, "openbsd": true, "js": true,
+	"wasip1": true, "amd64": true, "arm64": true, "arm": true, "386": true, "wasm": true, "riscv64": true, "ppc64le": true, "s390x": true,
+	"mips": true, "mips64": true, "cgo": true, "unix": true, "gc": true, "gccgo": true, "ignore": true, "race": true, "msan": true, "asan": true}
+
+// buildTags collects the identifiers used in //go:build lines of the module's non-test Go files that are not
+// operating systems, architectures or toolchain tags.
+func buildTags(repo string) []string {
+	set := map[string]bool{}
+	filepath.WalkDir(repo, func(path string, d fs.DirEntry, err error) error {
+		if err != nil {
+			return nil
+		}
+		if d.IsDir() && (d.Name() == ".git" || d.Name() == "tests") {
+			return filepath.SkipDir
+		}
+		if !strings.HasSuffix(path, ".go") || strings.HasSuffix(path, "_test.go") {
+			return nil
+		}
+		data, err := os.ReadFile(path)
+		if err != nil {
+			return nil
+		}
+		for _, line := range strings.Split(string(data), "\n") {
+			line = strings.TrimSpace(line)
+			if strings.HasPrefix(line, "package ") {
+				break
+			}
+			if !constraint.IsGoBuild(line) && !constraint.IsPlusBuild(line) {
+				continue
+			}
+			ex, err := constraint.Parse(line)
+			if err != nil {
+				continue
+			}
+			ex.Eval(func(tag string) bool {
+				if !knownOSArch[tag] && !strings.HasPrefix(tag, "go1.") {
+					set[tag] = true
+				}
+				return false
+			})
+		}
+		return nil
+	})
+	return sortedKeys(set)
 }
